@@ -443,4 +443,50 @@ def Node.flags : Node → Option (Bool × Bool)
   | .known _ cap => cap.inner.map (fun f => (f.isReadonly, f.isMutable))
   | .unknown _ => none
 
+/-! ### the node cache of `NodeMaker` (`_node_cache`, a WeakValueDictionary keyed by b"I"/b"M" + bigcap) -/
+
+structure CacheEntry where
+  deep : Bool           -- key prefix b"I" (True) / b"M" (False)
+  bigcap : Bytes
+  kind : NodeKind
+  cap : Cap
+  deriving DecidableEq, Repr
+
+abbrev NodeCache := List CacheEntry
+
+def cacheLookup (cache : NodeCache) (deep : Bool) (big : Bytes) : Option CacheEntry :=
+  cache.find? (fun e => e.deep == deep && e.bigcap == big)
+
+/-- `create_from_cap` with the cache (no blacklist): a hit returns the cached node without parsing;
+on a miss the node is built as in `createFromCap` and stored iff `node.is_mutable()`. -/
+def createFromCapCached (cache : NodeCache) (writecap readcap : Option Bytes) (deep : Bool) : Node × NodeCache :=
+  match orNone (orBytes writecap readcap) with
+  | none => (.unknown (mkUnknownNode none none false), cache)
+  | some bigcap =>
+    match cacheLookup cache deep bigcap with
+    | some e => (.known e.kind e.cap, cache)
+    | none =>
+      let node := createFromCap writecap readcap deep
+      match node with
+      | .known k cap =>
+        if (Node.known k cap).flags.map (·.2) == some true then (node, ⟨deep, bigcap, k, cap⟩ :: cache) else (node, cache)
+      | .unknown _ => (node, cache)
+
+/-- one step of a history on one NodeMaker: a call, or the garbage collector dropping the weakly
+referenced entries selected by `keep` -/
+inductive NmOp
+  | call (writecap readcap : Option Bytes) (deep : Bool)
+  | gc (keep : CacheEntry → Bool)
+
+def runHistory (cache : NodeCache) : List NmOp → List Node
+  | [] => []
+  | .call w r d :: rest => let (n, c') := createFromCapCached cache w r d; n :: runHistory c' rest
+  | .gc keep :: rest => runHistory (cache.filter keep) rest
+
+/-- the same calls, each on a fresh NodeMaker -/
+def runCold : List NmOp → List Node
+  | [] => []
+  | .call w r d :: rest => createFromCap w r d :: runCold rest
+  | .gc _ :: rest => runCold rest
+
 end Tahoe.Uri
